@@ -164,7 +164,7 @@ def impl_vs_impl(rng, n, residuals_only=False, terms_only=False):
                     if isinstance(u, jinns.utils._spinn.SPINN):
                         return jinns.loss._laplacian_fwd(None, x, u, params)[..., None] + u(x, params)
                     return jinns.loss._laplacian_rev(None, x, u, params)[..., None] + u(x, params)
-            common = dict(dynamic_loss=Eq(), omega_boundary_fun=lambda z: 0.5 + 0.0 * z[..., 0:1] if z.ndim > 1 else 0.5,
+            common = dict(dynamic_loss=Eq(), omega_boundary_fun=lambda z: (0.5 + 0.375 * z[..., 0:1] - 0.25 * z[..., -1:]) if z.ndim > 1 else (0.5 + 0.375 * z[0] - 0.25 * z[-1]),
                           omega_boundary_condition=cond, norm_samples=samples, norm_int_length=2.0)
             Ls = jinns.loss.LossPDEStatio(u=s, params=Ps, **common); Lt = jinns.loss.LossPDEStatio(u=tw, params=Pt, **common)
             # the pointwise loss sees the full grid of points; border facets: the grid of the facet's columns
@@ -186,7 +186,7 @@ def impl_vs_impl(rng, n, residuals_only=False, terms_only=False):
         txs = jnp.concatenate([ts, xs], axis=1)
         for cond, dimsel, tag in (("von neumann", None, "Neumann"), ("dirichlet", None, "Dirichlet"), ("dirichlet", 0, "Dirichlet on component 0 (integer index)"),
                                   ("dirichlet", jnp.s_[0:1], "Dirichlet on the slice [0:1]")):
-            common = dict(dynamic_loss=None, omega_boundary_fun=lambda t, x: 0.5 + 0.25 * t[..., 0:1] if hasattr(t, "ndim") and t.ndim > 1 else 0.5 + 0.25 * t, omega_boundary_condition=cond)
+            common = dict(dynamic_loss=None, omega_boundary_fun=lambda t, x: (0.5 + 0.25 * t[..., 0:1] + 0.375 * x[..., 0:1] - 0.25 * x[..., -1:]) if hasattr(t, "ndim") and t.ndim > 1 else (0.5 + 0.25 * t + 0.375 * x[0:1] - 0.25 * x[-1:]), omega_boundary_condition=cond)
             if dimsel is not None:
                 common["omega_boundary_dim"] = dimsel
             try:
@@ -203,7 +203,7 @@ def impl_vs_impl(rng, n, residuals_only=False, terms_only=False):
                 s, r = spinn(rng, 1, 1, "statio_PDE"); tw = make_twin(s, False)
                 Ps = Params(nn_params=s.init_params(), eq_params={}); Pt = Params(nn_params=tw.init_params(), eq_params={})
                 border1 = jnp.array([[[-1.0, 2.0]]])
-                common = dict(dynamic_loss=None, omega_boundary_fun=lambda z: 0.5 + 0.0 * z[..., 0:1] if z.ndim > 1 else 0.5, omega_boundary_condition=cond)
+                common = dict(dynamic_loss=None, omega_boundary_fun=lambda z: (0.5 + 0.375 * z[..., 0:1] - 0.25 * z[..., -1:]) if z.ndim > 1 else (0.5 + 0.375 * z[0] - 0.25 * z[-1]), omega_boundary_condition=cond)
                 Ls = jinns.loss.LossPDEStatio(u=s, params=Ps, **common); Lt = jinns.loss.LossPDEStatio(u=tw, params=Pt, **common)
                 _, a = Ls.evaluate(Ps, PDEStatioBatch(inside_batch=jnp.array([[0.5]]), border_batch=border1))
                 _, b = Lt.evaluate(Pt, PDEStatioBatch(inside_batch=jnp.array([[0.5]]), border_batch=border1))
@@ -215,7 +215,7 @@ def impl_vs_impl(rng, n, residuals_only=False, terms_only=False):
                 C = [[tcol, [[-1.0, 2.0][f] if f < 2 else dy(rng) + 0.125 * k for k in range(B)], [[0.5, 1.5][f - 2] if f >= 2 else dy(rng) - 0.25 * k for k in range(B)]] for f in range(4)]
                 border2 = jnp.array([[[C[f][c][i] for f in range(4)] for c in range(3)] for i in range(B)])          # (B, 3, 4)
                 bgrid2 = jnp.stack([jnp.array([[t, x, y] for t in C[f][0] for x in C[f][1] for y in C[f][2]]) for f in range(4)], axis=-1)
-                common = dict(dynamic_loss=None, omega_boundary_fun=lambda t, x: 0.5 + 0.25 * t[..., 0:1] if hasattr(t, "ndim") and t.ndim > 1 else 0.5 + 0.25 * t, omega_boundary_condition=cond)
+                common = dict(dynamic_loss=None, omega_boundary_fun=lambda t, x: (0.5 + 0.25 * t[..., 0:1] + 0.375 * x[..., 0:1] - 0.25 * x[..., -1:]) if hasattr(t, "ndim") and t.ndim > 1 else (0.5 + 0.25 * t + 0.375 * x[0:1] - 0.25 * x[-1:]), omega_boundary_condition=cond)
                 Ls = jinns.loss.LossPDENonStatio(u=s, params=Ps, **common); Lt = jinns.loss.LossPDENonStatio(u=tw, params=Pt, **common)
                 _, a = Ls.evaluate(Ps, PDENonStatioBatch(times_x_inside_batch=jnp.zeros((B, 3)), times_x_border_batch=border2))
                 _, b = Lt.evaluate(Pt, PDENonStatioBatch(times_x_inside_batch=jnp.zeros((B, 3)), times_x_border_batch=bgrid2))
